@@ -399,6 +399,8 @@ fn arbitrary(ctx: &mut Ctx, rng: &mut Rng, n: usize, thorough: bool) {
         ".com".into(), "com.".into(), "example..com".into(), "example.com.".into(), ".example.com".into(),
         "EXAMPLE.COM".into(), "Example.Co.Uk".into(),
         // capitals next to characters whose lower-case form has another UTF-8 length
+        // the characters IDNA maps to a full stop are not label separators for the list algorithm
+        "example\u{3002}com".into(), "www\u{ff0e}example.co.uk".into(), "a\u{ff61}b\u{ff61}kobe.jp".into(), "\u{3002}com".into(), "com\u{3002}".into(), "a.\u{ff0e}.uk".into(),
         "A\u{23a}".into(), "Example.\u{1e9e}".into(), "Www.Example.\u{212a}".into(), "Shop.\u{2126}".into(), "\u{130}stanbul.Example.TR".into(), "\u{23a}.Com".into(), "a.\u{212a}.UK".into(), "公司.cn".into(), "例え.jp".into(), "b\u{fc}cher.de".into(),
         "\u{0}".into(), "a\u{0}.com".into(), "\u{202e}moc.elpmaxe".into(), "🙂.🙂".into(), " ".into(), "a b.com".into(),
         "xn--".into(), "xn--.com".into(), "*.ck".into(), "!www.ck".into(), "*".into(), "*.*".into(),
@@ -424,7 +426,7 @@ fn arbitrary(ctx: &mut Ctx, rng: &mut Rng, n: usize, thorough: bool) {
     let dots = ".".repeat(if thorough { 100_000 } else { 5_000 });
     check(ctx, &dots, true, "only-dots");
     // random strings over a hostile alphabet
-    let alphabet: Vec<&str> = vec!["a", "b", "z", "0", "-", ".", ".", ".", "A", "é", "公", "xn--", "com", "uk", "co", "jp", "ck", "www", "*", "!", " ", "\u{0}", "\u{23a}", "\u{1e9e}", "\u{212a}", "\u{2126}", "\u{130}", "UK"];
+    let alphabet: Vec<&str> = vec!["a", "b", "z", "0", "-", ".", ".", ".", "A", "é", "公", "xn--", "com", "uk", "co", "jp", "ck", "www", "*", "!", " ", "\u{0}", "\u{23a}", "\u{1e9e}", "\u{212a}", "\u{2126}", "\u{130}", "UK", "\u{3002}", "\u{ff0e}", "\u{ff61}"];
     for _ in 0..n {
         let len = rng.range(0, 12);
         let mut s = String::new();
